@@ -162,7 +162,7 @@ def systematic(col, tier, rng, d):
     col.add_bound("one-factor grids through the Sphinx front end", f"{len(sample)} documents sampled (seeded) from the grids below, one Sphinx project, "
                   f"{nb} build(s) (bisection when a build raises)", len(sample), time.time() - t1)
     # a seeded sample of the grid (the vocabulary holds one regression input per defect these families found; the whole grid -
-    # about 28 000 documents - was run once when the families were written, see DESIGN 15.7)
+    # 13 321 documents - was run once through each front end when the families were written, see DESIGN 15.7)
     cases = rng.sample(cases, 1500 if quick else 7000)
     for key, text, ov in cases:
         col.case(key)
